@@ -28,6 +28,7 @@ func init() {
 		// returns a file with the removed file's size and data - no order of the operations produces that
 		ruleF1(c, "C03.T11")
 		ruleT12(c, "C03.T12")
+		ruleT13(c, "C03.T13")
 	}
 }
 
@@ -1146,6 +1147,37 @@ func ruleT12(c *Ctx, id string) {
 		}
 		return false
 	}
+	// ... and its answer decides: an inode is allocated only on the side where the lookup found nothing
+	{
+		nA := 0
+		for _, sc := range scopesOf(ga) {
+			for _, a := range P.CallsIn(sc.Fn, func(g *ssa.Function) bool { return g != nil && g.Name() == "AllocInode" && funcPkg(g) != nil && strings.HasSuffix(funcPkg(g).Path(), "/fstxn") }) {
+				nA++
+				g := guardedUp(scopesOf(ga), sc, a.Block(), func(sub Subst) func(Cond) (bool, bool) {
+					return func(cd Cond) (bool, bool) {
+						if cd.Op != token.EQL && cd.Op != token.NEQ {
+							return false, false
+						}
+						for _, pr := range [][2]ssa.Value{{cd.X, cd.Y}, {cd.Y, cd.X}} {
+							if pr[0] == nil || pr[1] == nil {
+								continue
+							}
+							k, isk := constIntDeep(pr[1])
+							ex, isE := sub.resolve(stripConv(pr[0])).(*ssa.Extract)
+							if !isk || k != 0 || !isE || ex.Index != 0 {
+								continue
+							}
+							if cl, isC := ex.Tuple.(*ssa.Call); isC && staticCallee(cl) == lookup {
+								return true, cd.Op == token.EQL
+							}
+						}
+						return false, false
+					}
+				})
+				R.Check(g, id, fmt.Sprintf("nfs.getAlloc|AllocInode#%d only when the name is free", nA), P.Pos(a.Pos()), "the allocation lies on the side of a test of LookupName's answer where no inode was found", "dominated by the == NULLINUM side", "the answer of the lookup does not decide: CREATE, MKDIR and SYMLINK of a name that exists add a second entry with that name - names are no longer unique, one of the two objects cannot be reached")
+			}
+		}
+	}
 	n := 0
 	for _, g := range P.CallsIn(ga, funcIs(V.GetInodeFh)) {
 		n++
@@ -1182,5 +1214,65 @@ func ruleT12(c *Ctx, id string) {
 	}
 	if n == 0 {
 		R.Fail(id, "nfs.getAlloc|acquires the directory", P.Pos(ga.Pos()), "getAlloc locks the directory through its handle", "no GetInodeFh call")
+	}
+}
+
+// ruleT13: when the target of a RENAME exists the handler drops its locks and
+// takes them again in order, with one of two lists: both directories and both
+// objects (four numbers), or - source and target in one directory - that
+// directory and both objects (three).  Which list is right is decided by the
+// comparison of the two directory inodes; the three-number list on the side
+// where they differ leaves the target directory unlocked (and the handler then
+// takes the source directory for it).
+func ruleT13(c *Ctx, id string) {
+	V, P, R := c.V, c.P, c.R
+	R.Rule(id, "RENAME relocks what it needs: a bulk acquisition of fewer than four numbers lies on the side where the two directory inodes are the same object", 2)
+	ren := c.fn(id, "nfs.(*Nfs).NFSPROC3_RENAME")
+	lock := c.fn(id, "nfs.lockInodes")
+	if ren == nil || lock == nil {
+		return
+	}
+	sameDir := func(want token.Token) func(Cond) (bool, bool) {
+		return func(cd Cond) (bool, bool) {
+			if (cd.Op != token.EQL && cd.Op != token.NEQ) || cd.X == nil || cd.Y == nil {
+				return false, false
+			}
+			if derefNamed(cd.X.Type()) != V.Inode || derefNamed(cd.Y.Type()) != V.Inode || isNilConst(cd.X) || isNilConst(cd.Y) {
+				return false, false
+			}
+			return true, cd.Op == want
+		}
+	}
+	n := 0
+	for _, sc := range scopesOf(ren) {
+		for _, call := range P.CallsIn(sc.Fn, funcIs(lock)) {
+			args := nonRecvArgs(call)
+			if len(args) < 2 {
+				continue
+			}
+			ln := int64(-1)
+			switch x := sc.S.resolve(stripConv(args[1])).(type) {
+			case *ssa.MakeSlice:
+				ln, _ = constInt(x.Len)
+			case *ssa.Slice:
+				if al, ok := stripConv(x.X).(*ssa.Alloc); ok {
+					if at, ok := derefType(al.Type()).Underlying().(*types.Array); ok {
+						ln = at.Len()
+					}
+				}
+			}
+			if ln < 0 {
+				continue // a list of another form (built by a helper): the roles of T3 judge it
+			}
+			n++
+			R.Analysed[FuncName(ren)] = true
+			if ln >= 4 {
+				// both directories and both objects: right on either side (a repeated number is skipped, C06.L1)
+				R.Pass(id, fmt.Sprintf("NFSPROC3_RENAME|relock of %d inodes", ln), P.Pos(call.Pos()), "the list names both directories and both objects", "complete list")
+			} else {
+				g := guardedBy(sc.Fn, call.Block(), sameDir(token.EQL))
+				R.Check(g, id, fmt.Sprintf("NFSPROC3_RENAME|relock of %d inodes only within one directory", ln), P.Pos(call.Pos()), "the short list is used on the side where source and target directory are the same inode", "dominated by that side", "a RENAME between two directories relocks only one of them: the target directory is changed without its lock (and the source directory is taken for it) - a concurrent operation in the target directory sees and overwrites half-applied updates")
+			}
+		}
 	}
 }
